@@ -11,7 +11,9 @@ SPEC = hdr_spec(
     partial_note="observational equivalence of Clean is a theorem when the best branch is the root branch (no reorganisation pending) in a repository reached by submissions: "
                  "tip, Header/Hash at every height >= 0 (from memory or from the files Clean wrote), height and most-work-chain flag of every hash, all branches kept "
                  "(C10_clean_root_reads / _headerAt / _checkHeader). With a pending reorganisation Clean consolidates first (Truncate/Connect/reload): that case, repeated "
-                 "Cleans on already-pruned forests, and 'side branches can still be extended and overtake afterwards' are checked on every generated history, not proved.")
+                 "Cleans on already-pruned forests, and 'side branches can still be extended and overtake afterwards' are checked on every generated history, not proved. "
+                 "In the LINEAR WORLD (Proofs/LinearWorld: every history of tip-extending submissions of any length — across 1000-header file boundaries, the 10000-header prune depth and the automatic clean every 10000 heights — interleaved with Cleans, Saves and Loads of any depth, any number of generations) Clean with any depth at any point, any number of times, leaves tip, header at every height and height of every hash unchanged (C10_linear_world; "
+                 "no NoAutoClean hypothesis: the automatic clean is part of the step theorem).")
 
 META = dict(
     technique="Lean 4 proof (observational equivalence of Clean for root-best repositories: prune specification, file layout of saveMainBranch, lookups by hash; prune preservation, consolidation fixed point, extracted call order) + model/implementation correspondence on dump;clean;dump",
